@@ -166,20 +166,20 @@ func (s *scriptBody) Read(p []byte) (int, error) {
 func (s *scriptBody) Close() error { s.closed = true; return nil }
 
 type c19Msg struct {
-	idx      int
-	id       string
-	isReq    bool
-	header   http.Header
-	under    *scriptBody
-	sizes    []int
-	maxReads int // early close after this many reads (0 = read to the end)
-	got      []byte
-	log      []readRes
-	sawEOF   bool
-	sawErr   bool
-	done     bool
+	idx                                              int
+	id                                               string
+	isReq                                            bool
+	header                                           http.Header
+	under                                            *scriptBody
+	sizes                                            []int
+	maxReads                                         int // early close after this many reads (0 = read to the end)
+	got                                              []byte
+	log                                              []readRes
+	sawEOF                                           bool
+	sawErr                                           bool
+	done                                             bool
 	method, scheme, host, path, query, proto, remote string
-	status int
+	status                                           int
 }
 
 func runC19(k *kernel.K) {
